@@ -122,6 +122,11 @@ def main(argv=None):
     anchor_reach = {rel: {"lines_executed": len(e["hit"]), "executable_lines": e["executable"],
                           "percent": round(100.0 * len(e["hit"]) / e["executable"], 1) if e["executable"] else None}
                     for rel, e in sorted(reach.items())}
+    try:
+        os.makedirs(os.path.join(ROOT, ".work"), exist_ok=True)
+        json.dump({rel: sorted(e["hit"]) for rel, e in reach.items()}, open(os.path.join(ROOT, ".work", pid + ".reach.json"), "w"))
+    except OSError:
+        pass
     unlisted = {}
     known_hit = {}
     for v in violations:
